@@ -1137,17 +1137,27 @@ def _const_origin(body, op, out):
         out.add(('const', op[2]))
 
 
-def _origins_place(body, place, passthru, seen, out, depth):
+def _origins_place(body, place, passthru, seen, out, depth, pend=None):
     L = place[0]
     projs = place[1:]
+    # field index selected on this local (to look through tuple aggregates)
+    ff = [p for p in projs if isinstance(p, str) and p.startswith('f')]
+    if ff:
+        try:
+            pend = int(ff[0][1:].split(':')[0])
+        except ValueError:
+            pend = None
     lty = body.locals[L] if L < len(body.locals) else ''
+    chain = []
     for p in projs:
-        if isinstance(p, str) and p.startswith('v'):
-            vname = p.split(':', 1)[1] if ':' in p else p
+        if isinstance(p, str) and p.startswith('v') and ':' in p:
+            vname = p.split(':', 1)[1]
             if vname not in ('Some', 'Ok', 'Continue'):
-                out.add(('payload', vname, lty))
-                return
-    key = (L, tuple(str(p) for p in projs if isinstance(p, str) and p.startswith('f')))
+                chain.append(vname)
+    if chain:
+        out.add(('payload', chain[0], lty, '>'.join(chain)))
+        return
+    key = (L, tuple(str(p) for p in projs if isinstance(p, str) and p.startswith('f')), pend)
     if key in seen or depth > 80:
         return
     seen.add(key)
@@ -1178,7 +1188,7 @@ def _origins_place(body, place, passthru, seen, out, depth):
             if o[0] == 'k':
                 _const_origin(body, o, out)
             elif o[0] in ('c', 'm'):
-                _origins_place(body, o[1], passthru, seen, out, depth + 1)
+                _origins_place(body, o[1], passthru, seen, out, depth + 1, pend if len(o[1]) == 1 else None)
         elif k in ('ref', 'rawptr'):
             _origins_place(body, rv[-1], passthru, seen, out, depth + 1)
         elif k == 'cast':
@@ -1194,7 +1204,14 @@ def _origins_place(body, place, passthru, seen, out, depth):
         elif k == 'un':
             out.add(('un', rv[1]))
         elif k == 'agg':
-            out.add(('agg', rv[2], rv[4]))
+            if rv[1] == 'tuple' and pend is not None and pend < len(rv[5]):
+                o = rv[5][pend]
+                if o[0] == 'k':
+                    _const_origin(body, o, out)
+                elif o[0] in ('c', 'm'):
+                    _origins_place(body, o[1], passthru, seen, out, depth + 1)
+            else:
+                out.add(('agg', rv[2], rv[4]))
         elif k == 'discr':
             out.add(('other', 'discriminant'))
         else:
